@@ -1107,6 +1107,11 @@ func (self *LockDB) checkMillisecondExpried(ms int64, glockIndex uint16) {
 		nodeQueues := lockQueue.IterNodeQueues(int32(i))
 		for j, lock := range nodeQueues {
 			if !lock.expried {
+				if lock.command.ExpriedFlag&protocol.EXPRIED_FLAG_MILLISECOND_TIME == 0 {
+					self.AddExpried(lock)
+					nodeQueues[j] = nil
+					continue
+				}
 				lock.expriedTime = lock.startTime + int64(lock.command.Expried/1000) + 1
 				if lock.command.Expried >= MILLISECOND_QUEUE_LENGTH {
 					self.AddExpried(lock)
